@@ -1322,6 +1322,8 @@ def _has_effect(case, key):
     return node is not None
 
 
+MORE_BLOCKS = ("undef", "hist", "flags", "nargs", "subcmd")  # c05_more.py, c05_shapes.py
+
 JSONNET_TYPES_QUICK = [
     "str", "int", "float", "bool", "E", "Any", "PositiveInt", "Decimal", "pathlib.Path",
     ["Optional", "int"], ["Optional", "str"], ["Union", "int", "str"], ["List", "int"], ["List", "str"],
@@ -1492,11 +1494,11 @@ def explore(ctx):
             chan_runs[name] = chan_runs.get(name, 0) + 1
         ctx.deviations_from(r["case"], r["devs"])
     # the three further blocks (mc/checks/c05_more.py): undefined keys, parsers with a history, env / defaults flags
-    from mc.checks import c05_more
+    from mc.checks import c05_more, c05_shapes
 
     more = c05_more.cases(ctx.quick)
     more.sort(key=lambda c: (len(json.dumps(c)), json.dumps(c, sort_keys=True)))
-    mstat = {b: {"cases": 0, "parses": 0, "accepted": 0, "rejected": 0, "some_acc": 0, "all_rej": 0} for b in ("undef", "hist", "flags")}
+    mstat = {b: {"cases": 0, "parses": 0, "accepted": 0, "rejected": 0, "some_acc": 0, "all_rej": 0} for b in MORE_BLOCKS}
     fresh_keys = set()
     for r in ctx.pmap(work_more, more):
         st = mstat[r["case"]["block"]]
@@ -1538,7 +1540,7 @@ def explore(ctx):
         ctx.count(f"block_{b}_parses", st["parses"])
         ctx.count(f"block_{b}_observations_accepted", st["accepted"])
         ctx.count(f"block_{b}_observations_rejected", st["rejected"])
-    for b in ("undef", "hist", "flags"):
+    for b in MORE_BLOCKS:
         ctx.sample(next(c for c in more if c["block"] == b and len(json.dumps(c)) > 120))
     ctx.cover(
         evaluations=n + n_more,
@@ -1559,7 +1561,11 @@ def explore(ctx):
         "through the command line and every document / object cut; (d) parsers with a history: every sequence of <= L "
         "uses / documented re-configurations / registration as a sub-command before the parse, against a parser built "
         "directly in the final configuration; (e) env=True x defaults in {True, False} x entry point x every split of "
-        "two settings between the environment and another carrier.",
+        "two settings between the environment and another carrier; (f) arguments declared with nargs in {1, 2, +, *, ?} x "
+        "element declaration x every array over the element alphabet up to length 3, one word per item on the command line, "
+        "JSON array / bare item in the environment, array in documents; (g) a parser with sub-commands, required or not, a "
+        "sub-command pre-selected by set_defaults / default config file / environment or not, x every subset of the "
+        "settings {top, subcommand, fit.x, test.y} through every channel that can say it.",
         exhaustive=True,
         caps_hit=[],
         bounds={
@@ -1582,6 +1588,10 @@ def explore(ctx):
                                     "values_at_branch_keys": c05_more.BRANCH_VALUES, "allow_abbrev": False},
             "history_block": {"operations": c05_more.HIST_USES + c05_more.HIST_RECONF, "max_length": 2 if ctx.quick else 3,
                               "histories_of_length_2": len(c05_more.hist_histories(2))},
+            "nargs_block": {"nargs": c05_shapes.NARGS, "elements": list(c05_shapes.NARGS_ELEMS),
+                            "shapes": c05_shapes.NARGS_SHAPES[:2] if ctx.quick else c05_shapes.NARGS_SHAPES, "array_length": "0-3"},
+            "subcommand_block": {"preselection": c05_shapes.SUB_PRE, "required": [True, False],
+                                 "settings_subsets": len(c05_shapes.subcmd_settings())},
             "flags_block": {"shapes": c05_more.FLAG_SHAPES_QUICK if ctx.quick else c05_more.FLAG_SHAPES, "env": True,
                             "defaults": [True, False], "splits": ["none", "k", "j", "both"]},
         },
@@ -1618,3 +1628,8 @@ def explore(ctx):
                 "history block: >= 400 cases, >= 150 distinct histories, >= 3000 accepted observations")
     ctx.require(f["cases"] >= 150 and f["some_acc"] >= 60 and f["all_rej"] >= 20 and f["parses"] >= 3000,
                 "flags block: >= 150 cases, >= 60 with an accepted and >= 20 with an everywhere rejected pair of settings")
+    g, sc = mstat["nargs"], mstat["subcmd"]
+    ctx.require(g["cases"] >= 400 and g["parses"] >= 4000 and g["accepted"] >= 1500 and g["rejected"] >= 500,
+                "nargs block: >= 400 cases, >= 4000 parses, >= 1500 accepted and >= 500 rejected observations")
+    ctx.require(sc["cases"] >= 200 and sc["parses"] >= 2500 and sc["accepted"] >= 1500 and sc["rejected"] >= 20,
+                "sub-command block: >= 200 cases, >= 2500 parses, >= 1500 accepted and >= 20 rejected observations")
